@@ -5,10 +5,33 @@
 (* must be the value Builtins.tla defines (an error exactly where the spec *)
 (* defines none, e.g. division by zero, index out of range, missing key).  *)
 (***************************************************************************)
-EXTENDS Semantics, Json, IOUtils
+EXTENDS Semantics, Json, IOUtils, Ring64
 Trace == ndJsonDeserialize(IOEnv.TRACE)
 VARIABLE l
 IsRed(f) == f \in {"fn:count", "fn:sum", "fn:min", "fn:max", "fn:avg", "fn:collect_distinct"}
+\* int64 boundary vectors (Ring64.tla): arguments and numeric results are <<"w", a, b>>
+IsRing(e) == "ring" \in DOMAIN e /\ e.ring
+WOf(x) == W(x[2], x[3])
+RECURSIVE FoldW(_, _, _, _)
+FoldW(op, a, i, acc) ==
+  IF i > Len(a) \/ acc = Undef THEN acc
+  ELSE FoldW(op, a, i + 1, CASE op = "fn:plus" -> Add(acc, WOf(a[i])) [] op = "fn:sum" -> Add(acc, WOf(a[i]))
+                                  [] op = "fn:minus" -> Sub(acc, WOf(a[i])) [] op = "fn:mult" -> Mul(acc, WOf(a[i]))
+                                  [] op = "fn:div" -> Div(acc, WOf(a[i])) [] op = "fn:mod" -> Mod(acc, WOf(a[i]))
+                                  [] op = "fn:min" -> (IF Less(WOf(a[i]), acc) THEN WOf(a[i]) ELSE acc)
+                                  [] op = "fn:max" -> (IF Less(acc, WOf(a[i])) THEN WOf(a[i]) ELSE acc))
+RingExpected(e) ==   \* <<"w", a, b>> | <<"bool", v>> | <<"err">> | <<"undef">>
+  LET x == WOf(e.a[1]) IN
+  IF e.f \in {"lt", "le", "gt", "ge"} THEN
+       LET y == WOf(e.a[2]) IN
+       <<"bool", CASE e.f = "lt" -> Less(x, y) [] e.f = "le" -> Less(x, y) \/ x = y [] e.f = "gt" -> Less(y, x) [] e.f = "ge" -> Less(y, x) \/ x = y>>
+  ELSE IF e.f = "fn:minus" /\ Len(e.a) = 1 THEN <<"w", Neg(x)[1], Neg(x)[2]>>
+  ELSE IF e.f \in {"fn:div", "fn:mod"} /\ \E i \in 2..Len(e.a) : IsZero(WOf(e.a[i])) THEN <<"err">>
+  ELSE LET r == FoldW(e.f, e.a, 2, x) IN IF r = Undef THEN <<"undef">> ELSE <<"w", r[1], r[2]>>
+RingOK(e) == LET x == RingExpected(e) IN
+             IF x = <<"undef">> THEN TRUE
+             ELSE IF x = <<"err">> THEN e.err
+             ELSE ~e.err /\ e.got[1] = x[1] /\ e.got = x
 Expected(e) ==
   IF e.f \in {"lt", "le", "gt", "ge"} THEN <<"bool", CmpHolds(e.f, e.a[1], e.a[2])>>
   ELSE IF IsRed(e.f) THEN Reduce(e.f, e.a)
@@ -19,7 +42,10 @@ OK(e) == LET x == Expected(e) IN
          IF IsErr(x) THEN e.err ELSE (~e.err /\ Obs(e) = Norm(x))
 Init == l = 1
 Next == /\ l <= Len(Trace) /\ l' = l + 1
-        /\ PrintT(<<"CLASS", Trace[l].id, IF IsErr(Expected(Trace[l])) THEN "error" ELSE "value">>)
-        /\ OK(Trace[l]) \/ PrintT(<<"MISMATCH", Trace[l].id, 1, "WRONG_RESULT", ToJson(Expected(Trace[l]))>>)
+        /\ IF IsRing(Trace[l])
+           THEN /\ PrintT(<<"CLASS", Trace[l].id, IF RingExpected(Trace[l]) = <<"undef">> THEN "ring-unjudged" ELSE IF RingExpected(Trace[l]) = <<"err">> THEN "error" ELSE "ring">>)
+                /\ RingOK(Trace[l]) \/ PrintT(<<"MISMATCH", Trace[l].id, 1, "WRONG_RESULT", ToJson(RingExpected(Trace[l]))>>)
+           ELSE /\ PrintT(<<"CLASS", Trace[l].id, IF IsErr(Expected(Trace[l])) THEN "error" ELSE "value">>)
+                /\ OK(Trace[l]) \/ PrintT(<<"MISMATCH", Trace[l].id, 1, "WRONG_RESULT", ToJson(Expected(Trace[l]))>>)
 Accepted == l = Len(Trace) + 1 => PrintT(<<"CONSUMED", Len(Trace)>>)
 =============================================================================
